@@ -19,6 +19,7 @@ HasPart(mode, w) == \E i \in 1..(Len(mode) - Len(w) + 1) : SubSeq(mode, i, i + L
 MapOf(p, id) == p.maps[CHOOSE i \in DOMAIN p.maps : p.maps[i].id = id]
 Failed(e) ==
   LET b == e.before  a == e.after
+      ALines(i) == IF i \in DOMAIN a.locs THEN a.locs[i].lines ELSE <<"gone">>     \* (a result with fewer locations is rejected, not an evaluation error)
       p == [
         samples  |-> /\ Len(a.samples) = Len(b.samples)
                      /\ \A i \in DOMAIN b.samples : /\ a.samples[i].vals = b.samples[i].vals
@@ -34,19 +35,19 @@ Failed(e) ==
         \* existing functions stay (same position, same id); new ones are only appended
         functions |-> /\ Len(a.fns) >= Len(b.fns)
                       /\ \A i \in DOMAIN b.fns : a.fns[i].id = b.fns[i].id,
-        names    |-> \A i \in DOMAIN b.fns : b.fns[i].name # "" => a.fns[i].name # "",
+        names    |-> \A i \in DOMAIN b.fns : b.fns[i].name # "" => (i \in DOMAIN a.fns /\ a.fns[i].name # ""),
         valid    |-> Valid(b) => Valid(a),
         \* a mapping that already carries symbols is left alone unless force is requested
         leftalone |-> e.force \/ \A i \in DOMAIN b.locs :
-                         (b.locs[i].map # 0 /\ MapOf(b, b.locs[i].map).hasfn) => a.locs[i].lines = b.locs[i].lines,
+                         (b.locs[i].map # 0 /\ MapOf(b, b.locs[i].map).hasfn) => ALines(i) = b.locs[i].lines,
         \* the local symbolizer also leaves a mapping alone that carries file names or line numbers only (the remote
         \* service, which supplies nothing but function names, looks at the has-functions flag alone)
         leftalone_partly |-> e.force \/ e.remote \/ \A i \in DOMAIN b.locs :
-                         (b.locs[i].map # 0 /\ (MapOf(b, b.locs[i].map).hasfile \/ MapOf(b, b.locs[i].map).hasline)) => a.locs[i].lines = b.locs[i].lines,
+                         (b.locs[i].map # 0 /\ (MapOf(b, b.locs[i].map).hasfile \/ MapOf(b, b.locs[i].map).hasline)) => ALines(i) = b.locs[i].lines,
         \* the remote service is only asked about locations without any line: what a location already has stays
-        remote_keeps_lined |-> e.force \/ e.mode # "remote" \/ \A i \in DOMAIN b.locs : Len(b.locs[i].lines) > 0 => a.locs[i].lines = b.locs[i].lines,
+        remote_keeps_lined |-> e.force \/ e.mode # "remote" \/ \A i \in DOMAIN b.locs : Len(b.locs[i].lines) > 0 => ALines(i) = b.locs[i].lines,
         \* symbol information is only ever attached: a location never loses its lines
-        attached |-> \A i \in DOMAIN b.locs : Len(b.locs[i].lines) > 0 => Len(a.locs[i].lines) > 0,
+        attached |-> \A i \in DOMAIN b.locs : Len(b.locs[i].lines) > 0 => Len(ALines(i)) > 0,
         none     |-> e.none => (a = b) ]
   IN {f \in DOMAIN p : ~p[f]}
 Init == l = 1 /\ bad = {}
